@@ -149,6 +149,31 @@ def _s(x):
     return r if len(r) < 400 else r[:400] + '...'
 
 
+# metadata the WRITER accepts beyond the JSON types proper (json.dumps
+# defaults): non-finite floats, extreme floats, huge integers, keys that are
+# not strings. Whatever the writer produced for them is a library-produced
+# file and must load and re-serialise byte for byte.
+PY_METAS = [
+    {'x': float('inf')}, {'x': float('-inf')}, {'x': float('nan')},
+    {'l': [float('inf'), {'d': float('nan')}], 'k': 'v'},
+    {'x': -0.0}, {'x': 1e308}, {'x': 5e-324}, {'x': 1e22}, {'x': 1e16},
+    {'x': 0.1}, {'x': 123456789.123456789}, {'x': 2 ** 64}, {'x': -2 ** 63},
+    {'x': 10 ** 400}, {1: 'x'}, {True: 'x'}, {None: 'x'}, {1.5: 'x'},
+    {'t': (1, 2)}, {'x': 1.0}, {'x': 1e0}, {'x': 100.0}, {'x': True, 'y': 1},
+]
+
+
+def py_calls(meta, where):
+    M = ['meta', {'path': 'f'}, None]
+    X = ['meta', meta, None]
+    D = ['diff', b'a\n', None, None, None]
+    if where == 'main':
+        return [X, ['change', None], ['file', None], M, D]
+    if where == 'change':
+        return [['change', None], X, ['file', None], M]
+    return [['change', None], ['file', None], X, D]
+
+
 def plan(tier):
     units, info = wrgraph.wr_plan(tier, combos_per_unit=300)
     units = units + wrgraph.scale_units(tier)[0]
@@ -164,6 +189,7 @@ def plan(tier):
             for k in range(K):
                 funits.append(('foreign', [i], k, K))
     funits.append(('examples',))
+    funits.append(('python-values',))
     return {
         'units': units + funits,
         'rule': '(1) every byte stream of C01\'s exploration (closed '
@@ -178,9 +204,13 @@ def plan(tier):
                 'model accepts the file, to_bytes() succeeds, carries the '
                 'reference reading\'s contents and is a fixed point. '
                 '(3) the scale pass of C01 (boundary sizes of every scalable '
-                'quantity) cycled the same way. Non-trivial: non-canonical '
+                'quantity) cycled the same way; (4) %d metadata objects '
+                'the writer accepts beyond the JSON types proper (inf, nan, '
+                'extreme floats, huge integers, non-string keys, tuples) at '
+                'every level x 2 main encodings, cycled like (1). '
+                'Non-trivial: non-canonical '
                 'input or >= 2 encodings.'
-                % (info['graph_states'], len(docs)),
+                % (info['graph_states'], len(docs), len(PY_METAS)),
         'bound': 'as C01 (graph closed=%s) and C03' % info['graph_closed'],
         'exhaustive': True,
         'assumptions': ['as C01 / C03'],
@@ -205,6 +235,17 @@ def run_unit(unit, tier):
             acc.violation(key, msg, payload)
         acc.outcome('ok' if not viols else 'violation')
 
+    if unit[0] == 'python-values':
+        for mi, meta in enumerate(PY_METAS):
+            for where in ('main', 'change', 'file'):
+                for root in ('utf-8', 'utf-16'):
+                    ex = wrgraph.Exec(py_calls(meta, where), root)
+                    judge(check_canonical(ex),
+                          {'kind': 'python-values', 'index': mi,
+                           'where': where, 'root': root},
+                          ex.werr is None)
+        acc.sample({'python_values': [repr(m) for m in PY_METAS[:6]]}, 1)
+        return acc
     if unit[0] == 'examples':
         for name, data in example_files():
             viols = check_foreign(data, 'example')
@@ -261,7 +302,11 @@ def replay(payload):
         ex = wrgraph.Exec(wrgraph.scale_calls(payload['cfg'], enc, le), root)
         return [{'key': k_ + ':scale', 'msg': m}
                 for k_, m in check_canonical(ex)]
-    if k == 'calls':
+    if k == 'python-values':
+        ex = wrgraph.Exec(py_calls(PY_METAS[payload['index']],
+                                   payload['where']), payload['root'])
+        viols = check_canonical(ex)
+    elif k == 'calls':
         ex = wrgraph.Exec(from_jsonable(payload['calls']), payload['root'])
         viols = check_canonical(ex)
     elif k == 'foreign':
